@@ -39,31 +39,38 @@ func c03Send(p *Prog, c *Check) {
 		return
 	}
 	c.Analysed(shortFn(fn))
-	fi := p.Info(fn)
 	n := 0
-	for _, b := range fn.Blocks {
-		for _, in := range b.Instrs {
-			ci, ok := in.(ssa.CallInstruction)
-			if !ok || !strings.HasSuffix(callName(ci), ".SendMessage") {
-				continue
-			}
-			call, _ := ci.(*ssa.Call)
-			if call == nil {
-				continue
-			}
-			n++
-			args := ci.Common().Args
-			msg := fi.T(unbox(args[len(args)-2]))
-			if ci.Common().IsInvoke() {
-				msg = fi.T(unbox(args[1]))
-			}
-			ok2 := ParsePat("ConstructDecryptionKeyShares(...)#0").Match(msg, Binds{})
-			c.Result(ok2, rule, fmt.Sprintf("handleEvent:send#%d", n), p.siteOf(ci), shortFn(fn), "SendMessage(keyShares)", "the message gossiped is not the one ConstructDecryptionKeyShares stored: "+msg.s, "ConstructDecryptionKeyShares#0")
-			if ok2 {
-				// err captured by the deferred closure: match on the reaching value of the check
-				facts := fi.FactsWithImports(call)
-				_, has := findAtom(facts, "ConstructDecryptionKeyShares(...)#1 == nil", Binds{})
-				c.Result(has, rule, fmt.Sprintf("handleEvent:send-guard#%d", n), p.siteOf(ci), shortFn(fn), "SendMessage(keyShares)", "the share message can be sent although constructing/storing it failed", "ConstructDecryptionKeyShares#1 == nil")
+	// the send: in handleEvent or in a helper of the package it calls
+	root := fn
+	for _, fn := range append([]*ssa.Function{root}, sameFileCallees(p, root)...) {
+		fi := p.Info(fn)
+		if fn != root && len(callsTo(fn, "ConstructDecryptionKeyShares")) == 0 {
+			continue
+		}
+		for _, b := range fn.Blocks {
+			for _, in := range b.Instrs {
+				ci, ok := in.(ssa.CallInstruction)
+				if !ok || !strings.HasSuffix(callName(ci), ".SendMessage") {
+					continue
+				}
+				call, _ := ci.(*ssa.Call)
+				if call == nil {
+					continue
+				}
+				n++
+				args := ci.Common().Args
+				msg := fi.T(unbox(args[len(args)-2]))
+				if ci.Common().IsInvoke() {
+					msg = fi.T(unbox(args[1]))
+				}
+				ok2 := ParsePat("ConstructDecryptionKeyShares(...)#0").Match(msg, Binds{})
+				c.Result(ok2, rule, fmt.Sprintf("handleEvent:send#%d", n), p.siteOf(ci), shortFn(fn), "SendMessage(keyShares)", "the message gossiped is not the one ConstructDecryptionKeyShares stored: "+msg.s, "ConstructDecryptionKeyShares#0")
+				if ok2 {
+					// err captured by the deferred closure: match on the reaching value of the check
+					facts := fi.FactsWithImports(call)
+					_, has := findAtom(facts, "ConstructDecryptionKeyShares(...)#1 == nil", Binds{})
+					c.Result(has, rule, fmt.Sprintf("handleEvent:send-guard#%d", n), p.siteOf(ci), shortFn(fn), "SendMessage(keyShares)", "the share message can be sent although constructing/storing it failed", "ConstructDecryptionKeyShares#1 == nil")
+				}
 			}
 		}
 	}
